@@ -900,13 +900,21 @@ def install_jwe(cfg):
         wb = z3.IntVal(o.f["wbits"])
         if o.f.get("E") is not None:
             # a further call without new input returns pending output (at most max_length octets)
-            if not ctx.entails(z3.Length(st) == 0):
-                raise Unsupported("second decompress call with new input")
             E, pos = o.f["E"], o.f["pos"]
             mt = interp.int_term(mx)
             rest = z3.Length(E) - pos
-            r = ctx.fresh("pending_output", StringSort)     # = E[pos : pos + max_length]; only its length matters here
-            ctx.axiom(z3.Length(r) == z3.If(rest > mt, mt, z3.If(rest > 0, rest, 0)), "decompress('', m) returns min(m, pending) octets of pending output")
+            r = ctx.fresh("pending_output", StringSort)     # a slice of E from pos; only its length matters here
+            avail = z3.If(rest > mt, mt, z3.If(rest > 0, rest, 0))
+            if ctx.entails(z3.Length(st) == 0):
+                # no new input: only output zlib already holds internally can come out -- NOT what the unconsumed
+                # input (unconsumed_tail) would still expand to
+                ctx.axiom(z3.Length(r) == z3.If(o.f["pending"], avail, 0),
+                          "decompress(b'', m) returns min(m, held) octets iff zlib holds pending output; leftover input is not touched")
+            else:
+                # fed with more input (e.g. the unconsumed tail): anything between nothing and min(m, rest)
+                ctx.axiom(z3.And(z3.Length(r) >= 0, z3.Length(r) <= avail,
+                                 z3.Implies(z3.And(z3.Length(st) == 0, z3.Not(o.f["pending"])), z3.Length(r) == 0)),
+                          "decompress(more, m) returns at most min(m, rest) octets")
             o.f["pos"] = pos + z3.Length(r)
             return interp.mk("vbytes", r)
         if not ctx.branch(InflateOk(st, wb)):
@@ -925,6 +933,10 @@ def install_jwe(cfg):
         # zlib may hold pending *output* without pending input: a non-empty unconsumed_tail implies the limit
         # was hit, but the converse does not hold (measured: 256 001..256 258 compressible octets)
         ctx.axiom(z3.Implies(tail_nonempty, over), "unconsumed_tail non-empty => output was cut at max_length")
+        pending = ctx.fresh("zlib_holds_pending_output", BoolSort)
+        ctx.axiom(z3.And(z3.Implies(pending, over), z3.Implies(over, z3.Or(tail_nonempty, pending))),
+                  "output cut at max_length <=> leftover input (unconsumed_tail) or output held inside zlib (or both)")
+        o.f["pending"] = pending
         o.f["tail"] = tail_nonempty
         o.f["over"] = over
         o.f["E"] = E
@@ -940,6 +952,15 @@ def install_jwe(cfg):
         interp.ctx.axiom((z3.Length(tail) > 0) == t, "unconsumed_tail")
         return interp.mk("vbytes", tail)
     fa[("decompressor", "unconsumed_tail")] = unconsumed_tail
+
+    def unused_data(interp, o):
+        # octets after the END of a finished stream; empty while the stream has not ended (in particular when the
+        # output was cut at max_length)
+        u = interp.ctx.fresh("unused_data", StringSort)
+        if o.f.get("over") is not None:
+            interp.ctx.axiom(z3.Implies(o.f["over"], z3.Length(u) == 0), "unused_data is empty unless the stream has ended")
+        return interp.mk("vbytes", u)
+    fa[("decompressor", "unused_data")] = unused_data
 
 
 def install_serialization(cfg):
